@@ -401,6 +401,13 @@ def ev(a, env):
 
 def ground_truth(sysd, t0=0.0):
     """fills base values and rates; raises Fragile when the system is numerically unsuitable"""
+    try:
+        return _ground_truth(sysd, t0)
+    except (OverflowError, ValueError, ZeroDivisionError):
+        raise Fragile()
+
+
+def _ground_truth(sysd, t0=0.0):
     qs = sysd['qs']
     def local_env(q):
         c = q.home
